@@ -162,10 +162,16 @@ note_fired (const void *site)
     if (n_fsites < MAX_SITES) { fsites[n_fsites].site = site; fsites[n_fsites].outer = cur_outer; fsites[n_fsites++].fired = 1; }
 }
 
+static int64_t fired_single, fired_persistent, fired_entry_restricted;
+
 void
 sim_fault_site_stats (void)
 {
     int i;
+    if (fired_single) sim_count ("fault_kind.single", fired_single);
+    if (fired_persistent) sim_count ("fault_kind.persistent", fired_persistent);
+    if (fired_entry_restricted) sim_count ("fault_kind.restricted_to_one_entry_point", fired_entry_restricted);
+    fired_single = fired_persistent = fired_entry_restricted = 0;
     char name[72];
     for (i = 0; i < n_fsites; i++)
     {
@@ -192,6 +198,8 @@ should_fail (int entry, const void *site)
 	if (!sim_alloc.n_failed) sim_alloc.first_fail_site = site;
 	sim_alloc.n_failed++;
 	sim_alloc.total_failed++;
+	if (sim_alloc.fault_mode == FAULT_SINGLE) fired_single++; else fired_persistent++;
+	if (sim_alloc.fault_entry != ENTRY_ANY) fired_entry_restricted++;
 	note_fired (site);
 	return 1;
     }
